@@ -190,6 +190,50 @@ pub fn trace(seed: u64, runs: usize, dir: &str, maxrecs: usize, what: &str) {
     }
 }
 
+/// trace covbig <seed> <dir>: records given by run lengths (multiplicities beyond 2^16 and 2^17, a 276 000-base record), the
+/// file being its own counting input; rows judged from the runs alone (RunLength.tla)
+pub fn big(seed: u64, dir: &str) {
+    let mut rng = Rng::new(seed);
+    for (i, &(k, bs, bc)) in [(4usize, 1000usize, 32usize), (12, 3, 100_000), (31, 70_000, 4), (7, 1, 5)].iter().enumerate() {
+        let plans: Vec<Vec<(u8, u64)>> = vec![
+            vec![(0, 140_000 + rng.below(500)), (1, 66_000 + rng.below(500)), (4, 31 + rng.below(5)), (2, 31 + rng.below(50)), (3, 70_000 + rng.below(50))],
+            vec![(3, 31 + rng.below(10)), (0, 31 + rng.below(10))],
+            vec![(4, 40)],
+            vec![(2, 68_000 + rng.below(10)), (1, 31)],
+        ];
+        let recs: Vec<Vec<u8>> = plans
+            .iter()
+            .map(|p| {
+                let mut s = Vec::new();
+                for &(c, n) in p {
+                    for _ in 0..n {
+                        s.push(render_class(c, &mut rng, true));
+                    }
+                }
+                s
+            })
+            .collect();
+        let norm = i % 2 == 1;
+        let c = CovCase { k, bs, bc, norm, threads: 1 + rng.below(8) as usize, mem: 6.0, delim: " ", recs, crecs: None };
+        let (_, res) = run_case(&c, dir);
+        let rle: Vec<Vec<Vec<u64>>> = plans.iter().map(|p| p.iter().map(|&(c, n)| vec![c as u64, n]).collect()).collect();
+        match &res {
+            Ok(path) => {
+                let rows: Vec<Value> = lines_of(path)
+                    .iter()
+                    .map(|l| {
+                        let (row, n) = sparse_row(l, " ", norm);
+                        json!([n, row])
+                    })
+                    .collect();
+                println!("{}", json!({"ev":"covbig","k":k,"bs":bs,"bc":bc,"norm": if norm {1} else {0},"recs":rle,"rows":rows}));
+            }
+            Err(_) => println!("{}", json!({"ev":"crash","kind":"panic"})),
+        }
+    }
+    println!("{}", json!({"ev":"eof"}));
+}
+
 /// trace idx <seed> <runs> <dir>: index maxima of every unchecked access site (oligo, oligocgr, coverage, counter)
 pub fn idx(seed: u64, runs: usize, dir: &str) {
     trace(seed, runs * 3, dir, 12, "idx");
